@@ -349,6 +349,14 @@ class Shapes(UperBase):
             # generic part: the only refusal of a valid value is the documented one
             if ans.startswith("err ") and ans != "err ext-inconsistent":
                 return f"valid value refused with {ans}"
+            # … and what is encoded decodes to the same presence pattern and values, to the last bit (types in
+            # a known round-trip deviation of C01 are left to C01)
+            if ans.startswith("ok ") and RoundTrip.finding_class(self, req, ans) is None:
+                a = uperlib.split_sx(ans[3:])
+                if len(a) == 3 and a[1] != items[1]:
+                    return f"decodes to another value: {a[1][:120]}"
+                if len(a) == 3 and a[2] != "0":
+                    return f"{a[2]} bits remain after decoding"
             return None
         bits, refusal = self.expected(ty, val)
         if refusal:
